@@ -69,6 +69,44 @@ def _map_field(ev, t):
     return Q.crate_fields(f_)[-1:] == [(A.DB, "map")] and base == ("param", 1)
 
 
+def _is_name(ev, t):
+    """`t` is the `name` parameter of add (possibly made owned)."""
+    from . import semq as Q
+    s = Q.strip(ev, t, extra=("to_owned", "to_string", "into", "from", "as_str", "borrow"))
+    return s == ("param", 3)
+
+
+def _name_state(ev, e):
+    """What the path knows about `name` being in the map: 'absent' / 'present' / None; plus whether is_empty was decided."""
+    from . import semq as Q
+    state = None
+    for (ct, cv, cn, cs) in e.path.conds:
+        if ct[0] == "discr" and Q.is_call(ev, ct[1], "entry") and _map_field(ev, ct[1][2][0]) and _is_name(ev, ct[1][2][1]):
+            v = e.path.variant(ct[1])
+            state = {"Vacant": "absent", "Occupied": "present"}.get(v, state)
+        elif ct[0] == "discr" and Q.is_call(ev, ct[1], "get") and _map_field(ev, ct[1][2][0]) and _is_name(ev, ct[1][2][1]):
+            v = e.path.variant(ct[1])
+            state = {"None": "absent", "Some": "present"}.get(v, state)
+        elif Q.is_call(ev, ct, "contains_key") and _map_field(ev, ct[2][0]) and _is_name(ev, ct[2][1]):
+            state = "present" if cv == 1 else "absent"
+    return state
+
+
+def _name_inserts(ev, events):
+    """Insertions of `name` into the map among the events: list of (event, id value term)."""
+    from . import semq as Q
+    out = []
+    for x in events:
+        if x[0] != "call" or x[2].local or not x[3]:
+            continue
+        c = x[2]
+        if c.name == "insert" and "VacantEntry" in c.path:
+            out.append((x, x[3][1]))
+        elif c.name == "insert" and ("HashMap" in c.path) and _map_field(ev, x[3][0]) and len(x[3]) == 3 and _is_name(ev, x[3][1]):
+            out.append((x, x[3][2]))
+    return out
+
+
 def _dep_loop(ev, e):
     """The traversal of the `dep` parameter on this path: (Loop, index of the way it was left by, position) or None."""
     from . import semq as Q
@@ -123,7 +161,8 @@ def ids(ctx, report, rule, facts, config, rejected_leaves_map=False):
         nid = [x for x in calls if x[2].key == nidb.key]
         ins = [x for x in calls if x[2].key == insb.key]
         ent = [x for x in calls if x[2].name == "entry" and "HashMap" in x[2].path]
-        vin = [x for x in calls if x[2].name == "insert" and "VacantEntry" in x[2].path]
+        vin_pairs = _name_inserts(ev, calls)
+        vin = [x for x, _ in vin_pairs]
         if len(nid) != 1:
             problems.append("next_id is called %d time(s) on a path" % len(nid))
             continue
@@ -155,8 +194,8 @@ def ids(ctx, report, rule, facts, config, rejected_leaves_map=False):
             for x in ent:
                 if pos[id(x)] < lpos:
                     problems.append("the name map is modified before the dependencies are resolved")
-        for v in vin:
-            if Q.strip(ev, v[3][1]) != idt:
+        for v, idv in vin_pairs:
+            if Q.strip(ev, idv) != idt:
                 problems.append("the id entered into the name map is not the fresh id")
     # a registration that is rejected (panics) must leave the name map as it was: every change of the
     # map lies on a path that goes on to place the system under the same id
@@ -215,17 +254,16 @@ def reject(ctx, report, rule, facts, config):
     n_ok_paths = 0
     for e in ends:
         is_empty = None
-        entry_variant = None
         for (ct, cv, cn, cs) in e.path.conds:
             if Q.is_call(ev, ct, "is_empty") and Q.strip(ev, ct[2][0]) == ("param", 3):
                 is_empty = cv
-            elif ct[0] == "discr" and Q.is_call(ev, ct[1], "entry") and _map_field(ev, ct[1][2][0]):
-                entry_variant = e.path.variant(ct[1])
+        entry_variant = {"absent": "Vacant", "present": "Occupied"}.get(_name_state(ev, e))
         deep = _deep_events(e.path.events)
         calls = [x for x in e.path.events if x[0] == "call"]
-        vin = [x for x in calls if x[2].name == "insert" and "VacantEntry" in x[2].path]
+        vin = [x for x, _ in _name_inserts(ev, calls)]
         ins = [x for x in calls if x[2].key == insb.key]
-        ent = [x for x in calls if x[2].name == "entry" and "HashMap" in x[2].path]
+        ent = [x for x in calls if not x[2].local and x[2].name in ("entry", "contains_key", "get", "insert", "remove") and "HashMap" in x[2].path
+               and x[3] and _map_field(ev, x[3][0]) and len(x[3]) > 1 and _is_name(ev, x[3][1])]
         pos = dict((id(x), i) for i, x in enumerate(e.path.events))
         if e.kind == "diverge":
             dcalls = [x for x in deep if x[0] == "call"]
@@ -273,10 +311,6 @@ def reject(ctx, report, rule, facts, config):
             elif is_empty == 0:
                 if entry_variant != "Vacant" or len(vin) != 1:
                     problems.append("a non-empty name is accepted without being entered into a vacant slot of the name map")
-                elif ent:
-                    key = ent[0][3][1]
-                    if not (Q.is_call(ev, key, "to_owned") and Q.strip(ev, key[2][0]) == ("param", 3)):
-                        problems.append("the name map entry is not keyed by `name`")
             else:
                 problems.append("a returning path does not test name.is_empty()")
             if vin and ins and pos[id(vin[0])] > pos[id(ins[0])]:
